@@ -2,3 +2,4 @@ verus! {
 // `usize` is 64 bits wide (target assumption; Verus otherwise treats it as 32-or-64)
 global size_of usize == 8;
 //@include prelude/std_extra.rs
+//@include prelude/std_str.rs
